@@ -561,3 +561,7 @@ Proof.
   intros Hw Hd. pose proof (gwfb_gwf g Hw) as W. apply h_total_implicit; [exact (gwf_nd g W)|].
   rewrite h_dom_copy by exact W. exact Hd.
 Qed.
+
+Example h_total_implicit_wf_ex :
+  gwfb ex_ch4_partial = true /\ h_dom ex_ch4_partial = true /\ total_h (h_to_implicit ex_ch4_partial) = 4.
+Proof. vm_compute. repeat split. Qed.
